@@ -103,7 +103,7 @@ err_t bignKeypairGen(octet privkey[], octet pubkey[],
 	Q = d + n;
 	stack = Q + 2 * n;
 	// d <-R {1,2,..., q - 1}
-	if (!zzRandNZMod(d, ec->f->mod, n, rng, rng_state))
+	if (!zzRandNZMod(d, ec->order, n, rng, rng_state))
 	{
 		blobClose(state);
 		return ERR_BAD_RNG;
